@@ -284,7 +284,11 @@ func (g *gstate) storage() {
 		g.emit(call{typ: "sc", sender: g.client(), to: iStorage, fn: "write_pool_lock", value: g.coin(10e10), fee: g.fee(), in: j(map[string]string{"allocation_id": a.id})})
 	case 6: // read pool lock / unlock
 		if g.r.Intn(2) == 0 {
-			g.emit(call{typ: "sc", sender: g.client(), to: iStorage, fn: "read_pool_lock", value: g.coin(5e10), fee: g.fee(), in: `{}`})
+			in := `{}`
+			if g.r.Intn(2) == 0 { // lock for somebody else's read pool: the SENDER pays
+				in = j(map[string]string{"target_id": x.idOf(g.client())})
+			}
+			g.emit(call{typ: "sc", sender: g.client(), to: iStorage, fn: "read_pool_lock", value: g.coin(5e10), fee: g.fee(), in: in})
 		} else {
 			g.emit(call{typ: "sc", sender: g.client(), to: iStorage, fn: "read_pool_unlock", fee: g.fee(), in: `{}`})
 		}
@@ -305,7 +309,14 @@ func (g *gstate) storage() {
 		g.emit(call{typ: "sc", sender: who, to: iStorage, fn: fn, fee: g.fee(), in: j(map[string]string{"allocation_id": a.id}), dt: int64(g.r.Intn(100)), note: note})
 	case 9: // collect reward by a delegate / by a stranger
 		b := g.blobbers[g.r.Intn(len(g.blobbers))]
-		g.emit(call{typ: "sc", sender: g.client(), to: iStorage, fn: "collect_reward", fee: g.fee(), in: j(map[string]interface{}{"provider_type": 3, "provider_id": x.idOf(b)})})
+		who := g.client()
+		switch g.r.Intn(3) {
+		case 0:
+			who = iClient0 + 5 // the usual staker
+		case 1:
+			who = iClient0 + (b-iClient0+1)%nClients // the blobber's delegate wallet
+		}
+		g.emit(call{typ: "sc", sender: who, to: iStorage, fn: "collect_reward", fee: g.fee(), in: j(map[string]interface{}{"provider_type": 3, "provider_id": x.idOf(b)})})
 	default:
 		g.freeStorage()
 	}
